@@ -137,7 +137,8 @@ def report(pid, tier, seed, mod, results, wall):
             for fail in b.get('failures', []):
                 rec = dict(name=fail.get('name', 'bounded check'),
                            status='refuted', kind='bounded',
-                           replay=dict(outcome='violates', **fail))
+                           replay=dict(outcome='violates', failed=[fail],
+                                       source='bounded check on the real code'))
                 res['records'].append(rec)
         for rec in res['records']:
             st = rec['status']
